@@ -339,11 +339,16 @@ func (e *explainer) solveBodyRec(premises []ast.Term, uf unionfind.UnionFind, de
 	case ast.Atom:
 		return e.solveAtomPremise(p, rest, uf, depth, need, accAtoms, accProofs, partial)
 	case ast.Eq:
-		ok, err := evalEq(p.Left, p.Right, uf, true)
-		if err != nil || !ok {
+		// As in evaluation, an equality may give a value to a variable.
+		left, right, err := functional.EvalBaseTermPair(p.Left, p.Right, uf)
+		if err != nil {
 			return nil
 		}
-		return e.solveBodyRec(rest, uf, depth, need, accAtoms, accProofs, partial)
+		eqUF, err := unionfind.UnifyTermsExtend([]ast.BaseTerm{left}, []ast.BaseTerm{right}, uf)
+		if err != nil {
+			return nil
+		}
+		return e.solveBodyRec(rest, eqUF, depth, need, accAtoms, accProofs, partial)
 	case ast.Ineq:
 		ok, err := evalEq(p.Left, p.Right, uf, false)
 		if err != nil || !ok {
@@ -482,23 +487,15 @@ func extractBindings(rule ast.Clause, uf unionfind.UnionFind) []Binding {
 }
 
 func collectVars(rule ast.Clause) []ast.Variable {
-	seen := make(map[string]ast.Variable)
-	addFromAtom := func(a ast.Atom) {
-		for _, arg := range a.Args {
-			if v, ok := arg.(ast.Variable); ok && v.Symbol != "_" {
-				seen[v.Symbol] = v
-			}
-		}
-	}
-	addFromAtom(rule.Head)
-	for _, p := range rule.Premises {
-		if a, ok := p.(ast.Atom); ok {
-			addFromAtom(a)
-		}
-	}
+	// All variables of the clause, including those that occur only in an
+	// equality or inside a function expression.
+	seen := make(map[ast.Variable]bool)
+	ast.AddVarsFromClause(rule, seen)
 	out := make([]ast.Variable, 0, len(seen))
-	for _, v := range seen {
-		out = append(out, v)
+	for v := range seen {
+		if v.Symbol != "_" {
+			out = append(out, v)
+		}
 	}
 	return out
 }
